@@ -35,8 +35,11 @@ func acceptorSelfTest() string {
 		{"missing data", initSubQ, []event{RQ, R(0, ""), ack, RQ, R(1, "1"), RQ, X(evXS, 1), XE(1, 0), X(evXR, 1), W("complete", "1", ""), X(evXP, 1), EOF}, "never delivered"},
 		{"two terminals", initSubQ, append(append([]event{}, okQ[:12]...), W("complete", "1", ""), X(evXP, 1), EOF), "second terminal"},
 		{"next after terminal", initSubQ, append(append([]event{}, okQ[:12]...), W("next", "1", resultDoc(1, 1)), X(evXP, 1), EOF), "after the server's"},
-		{"wrong payload", initSubQ, []event{RQ, R(0, ""), ack, RQ, R(1, "1"), RQ, X(evXS, 1), XE(1, 0), X(evXR, 1), W("next", "1", resultDoc(7, 0)), W("complete", "1", ""), X(evXP, 1), EOF}, "payload"},
-		{"next for foreign id", initSubQ, []event{RQ, R(0, ""), ack, RQ, R(1, "1"), RQ, X(evXS, 1), XE(1, 0), X(evXR, 1), W("next", "2", resultDoc(1, 0)), W("next", "1", resultDoc(1, 0)), W("complete", "1", ""), X(evXP, 1), EOF}, "no operation was started"},
+		{"wrong payload", initSubQ, []event{RQ, R(0, ""), ack, RQ, R(1, "1"), RQ, X(evXS, 1), XE(1, 0), X(evXR, 1), W("next", "1", resultDoc(1, 1)), W("complete", "1", ""), X(evXP, 1), EOF}, "payload"},
+		{"result of an unknown executor", initSubQ, []event{RQ, R(0, ""), ack, RQ, R(1, "1"), RQ, X(evXS, 1), XE(1, 0), X(evXR, 1), W("next", "1", resultDoc(7, 0)), W("complete", "1", ""), X(evXP, 1), EOF}, "no started operation"},
+		{"untagged payload", initSubQ, []event{RQ, R(0, ""), ack, RQ, R(1, "1"), RQ, X(evXS, 1), XE(1, 0), X(evXR, 1), W("next", "1", `{"data":null}`), W("complete", "1", ""), X(evXP, 1), EOF}, "payload"},
+		{"next for foreign id", initSubQ, []event{RQ, R(0, ""), ack, RQ, R(1, "1"), RQ, X(evXS, 1), XE(1, 0), X(evXR, 1), W("next", "2", resultDoc(1, 0)), W("next", "1", resultDoc(1, 0)), W("complete", "1", ""), X(evXP, 1), EOF}, "is output of the operation"},
+		{"error for never-started id", initSubQ, []event{RQ, R(0, ""), ack, RQ, W("error", "2", "[]"), EOF}, "no operation was started"},
 		{"no ack", initSubQ, []event{RQ, R(0, ""), RQ, EOF}, "exactly one connection_ack"},
 		{"two acks", initSubQ, []event{RQ, R(0, ""), ack, ack, RQ, EOF}, "connection_ack"},
 		{"ack plus junk", initSubQ, []event{RQ, R(0, ""), ack, W("hello", "", ""), RQ, EOF}, "connection_ack only"},
